@@ -7,7 +7,7 @@ cd /repo || exit 2
 if [ -n "$(git status --porcelain)" ]; then echo "try_seeded: /repo is not clean" >&2; exit 2; fi
 if ! git apply --check "$patch" 2>/dev/null; then echo "try_seeded: patch does not apply"; exit 3; fi
 git apply "$patch"
-trap 'git -C /repo checkout -- . ; git -C /repo clean -fdq' EXIT
+trap 'git -C /repo checkout -- . ; git -C /repo clean -fdq; git -C /verif checkout -- evidence/ 2>/dev/null' EXIT
 cd /verif
 if [ -n "$secs" ]; then export VERIF_SECS="$secs"; fi
 ./check.sh "$prop" "$tier" 2>&1 | grep -E "^(violation|VIOLATION|runs=|KNOWN|verif:)" | cut -c1-260 | sort | uniq -c | sort -rn | head -12
